@@ -151,10 +151,10 @@ method("_send_batch", "(%s) -> None" % SELF, props=["C19", "C09"],
            # C19: one partition lookup per queued send; the chain behind the dispatch sends the requests, then clears the in-flight
            # marker, then looks at the thresholds again ("a threshold met while a batch is in flight takes effect the moment
            # that batch resolves")
-           "chain-complete[C19, C09]": "len(d_list) == len(old(self._batch_reqs)) and n_events('Add') == 4 and n_added('_send_requests') == 1 "
+           "chain-complete[C19, C09]": "len(d_list) == len(old(self._batch_reqs)) and n_events('Add') >= 4 and n_added('_send_requests') == 1 "
                                        "and n_added('_complete_batch_send') == 1 and n_added('_check_send_batch') == 1 and "
-                                       "events('Add')[2] == 'addBoth:afkak.producer.Producer._complete_batch_send' and "
-                                       "events('Add')[3] == 'addBoth:afkak.producer.Producer._check_send_batch'",
+                                       "added_index('_send_requests') < added_index('_complete_batch_send') and "
+                                       "added_index('_complete_batch_send') < added_index('_check_send_batch')",
            # C09/C19: a batch is dispatched only when none is in flight, something is queued and the producer is not stopping
            "only-when-idle-and-running[C19,C09]": "not old(self.stopping) and old(self._batch_send_d) is None and len(old(self._batch_reqs)) > 0",
            "queue-and-counters-reset[C19]": "len(self._batch_reqs) == 0 and self._waitingMsgCount == 0 and self._waitingByteCount == 0 "
@@ -231,7 +231,6 @@ method("_send_requests", "(%s, parts_results: List[Tuple[bool, Any]], requests: 
        # implicit obligation of every fire: `req.deferred.errback(...)` only on a Deferred that has not fired (a send cancelled
        # while its partition lookup was pending is skipped, "cancelling later only detaches the caller")
        ensures={"nothing-while-stopping[C19]": "implies(old(self.stopping), n_events('ProduceRequest') == 0 and n_events('Fired') == 0)",
-                "attempt-counted[C09]": "implies(n_events('Fired') == 0 and n_events('ProduceRequest') == 1 and n_events('Add') == 1, True)",
                 "one-request-per-dispatch[C09]": "n_events('ProduceRequest') <= 1"},
        checkpoints={
            # C19/C01: a send is failed here only when its partition lookup failed; it joins a request only when the lookup
